@@ -302,9 +302,12 @@ class ExplicitStateGraph:
             if i > 0:
                 # Keep the current action unless another one is strictly better after rounding:
                 # switching between actions that tie after rounding can cycle forever.
+                # The error of the linear solve above grows with the magnitude of the values, so for
+                # large values "tie" has to mean "equal up to VALUE_DECIMAL_PRECISION significant decimals".
                 current = pi.argmax(axis=1)
                 current_q = np.take_along_axis(masked_q, current[:, None], axis=1)[:, 0]
-                best = np.where(current_q >= masked_q.max(axis=1), current, best)
+                tie_tolerance = 10.0**(-self.VALUE_DECIMAL_PRECISION) * max(1.0, np.abs(v).max())
+                best = np.where(current_q >= masked_q.max(axis=1) - tie_tolerance, current, best)
             np.put_along_axis(new_pi, best[:, None], values=1, axis=1)
 
             # Check convergence
